@@ -416,3 +416,182 @@ def generate(repo):
     ffiles, fmeta = translate_filters.generate()
     files.update(ffiles)
     return files, {'tables': meta, 'grouping': gmeta, **fmeta}
+
+
+# ---------------------------------------------------------------------------------------------
+# control-flow IR: Lexer.get_default_instance / default_initialization, FilterStack.run, the entry points
+def _src_tree(obj):
+    import textwrap
+    return ast.parse(textwrap.dedent(inspect.getsource(obj)))
+
+
+def _is_attr(node, base, attr):
+    return isinstance(node, ast.Attribute) and node.attr == attr and isinstance(node.value, ast.Name) and node.value.id == base
+
+
+def gen_control(repo):
+    from sqlparse import lexer, keywords
+    from sqlparse.engine import filter_stack
+    import sqlparse
+    L = ['import SqlModel.Control', 'namespace Sql.Gen']
+    meta = {}
+    # --- get_default_instance
+    fn = _src_tree(lexer.Lexer.get_default_instance.__func__).body[0]
+    body = [s for s in fn.body if not (isinstance(s, ast.Expr) and isinstance(s.value, ast.Constant))]
+    locked = False
+    if len(body) == 2 and isinstance(body[0], ast.With):
+        w = body[0]
+        if not (len(w.items) == 1 and _is_attr(w.items[0].context_expr, 'cls', '_lock')):
+            raise TranslateError('get_default_instance: unexpected with-item')
+        locked = True
+        inner = w.body
+    elif len(body) == 2 and isinstance(body[0], ast.If):
+        inner = [body[0]]
+    else:
+        raise TranslateError('get_default_instance: unexpected statement shape')
+    if not (isinstance(body[1], ast.Return) and _is_attr(body[1].value, 'cls', '_default_instance')):
+        raise TranslateError('get_default_instance: does not return cls._default_instance')
+    if not (len(inner) == 1 and isinstance(inner[0], ast.If) and not inner[0].orelse):
+        raise TranslateError('get_default_instance: expected a single if-statement')
+    test = inner[0].test
+    if not (isinstance(test, ast.Compare) and _is_attr(test.left, 'cls', '_default_instance') and len(test.ops) == 1
+            and isinstance(test.ops[0], ast.Is) and isinstance(test.comparators[0], ast.Constant) and test.comparators[0].value is None):
+        raise TranslateError('get_default_instance: unexpected test')
+    ops = []
+    for st in inner[0].body:
+        if isinstance(st, ast.Assign) and len(st.targets) == 1:
+            tgt, val = st.targets[0], st.value
+            is_new = isinstance(val, ast.Call) and isinstance(val.func, ast.Name) and val.func.id == 'cls' and not val.args
+            if _is_attr(tgt, 'cls', '_default_instance') and is_new:
+                ops.append('.createPublish')
+            elif isinstance(tgt, ast.Name) and is_new:
+                ops.append('.createLocal')
+            elif _is_attr(tgt, 'cls', '_default_instance') and isinstance(val, ast.Name):
+                ops.append('.publishLocal')
+            else:
+                raise TranslateError('get_default_instance: unexpected assignment')
+        elif isinstance(st, ast.Expr) and isinstance(st.value, ast.Call) and isinstance(st.value.func, ast.Attribute) \
+                and st.value.func.attr == 'default_initialization':
+            recv = st.value.func.value
+            if _is_attr(recv, 'cls', '_default_instance'):
+                ops.append('.initPublished')
+            elif isinstance(recv, ast.Name):
+                ops.append('.initLocal')
+            else:
+                raise TranslateError('get_default_instance: unexpected receiver of default_initialization')
+        else:
+            raise TranslateError('get_default_instance: unexpected statement %s' % ast.dump(st)[:80])
+    L.append('/-- is the test-and-create sequence of `get_default_instance` inside `with cls._lock` -/')
+    L.append('def initLocked : Bool := %s' % ('true' if locked else 'false'))
+    L.append('/-- the statements executed when `_default_instance is None`, in source order -/')
+    L.append('def initProgram : List InitOp := [%s]' % ', '.join(ops))
+    meta['initProgram'] = ops
+    meta['initLocked'] = locked
+    # --- default_initialization
+    fn = _src_tree(lexer.Lexer.default_initialization).body[0]
+    cfg = []
+    dict_names = []
+    for st in fn.body:
+        if isinstance(st, ast.Expr) and isinstance(st.value, ast.Constant):
+            continue
+        if not (isinstance(st, ast.Expr) and isinstance(st.value, ast.Call) and isinstance(st.value.func, ast.Attribute)
+                and isinstance(st.value.func.value, ast.Name) and st.value.func.value.id == 'self'):
+            raise TranslateError('default_initialization: unexpected statement')
+        name = st.value.func.attr
+        if name == 'clear' and not st.value.args:
+            cfg.append('.clear')
+        elif name == 'set_SQL_REGEX' and len(st.value.args) == 1 and _is_attr(st.value.args[0], 'keywords', 'SQL_REGEX'):
+            cfg.append('.setRegex 0')
+        elif name == 'add_keywords' and len(st.value.args) == 1 and isinstance(st.value.args[0], ast.Attribute):
+            dn = st.value.args[0].attr
+            if dn not in dict_names:
+                dict_names.append(dn)
+            cfg.append('(.addKw %d)' % dict_names.index(dn))
+        else:
+            raise TranslateError('default_initialization: unexpected call %s' % name)
+    L.append('/-- the calls of `default_initialization`, in source order (dictionary ids = order of first mention: %s) -/' % ', '.join(dict_names))
+    L.append('def defaultInitOps : List CfgOp := [%s]' % ', '.join(cfg))
+    meta['defaultInitOps'] = cfg
+    # --- FilterStack.run: which stages are inside the try whose handler turns RecursionError into SQLParseError
+    fn = _src_tree(filter_stack.FilterStack.run).body[0]
+    stages = {'lex': 'tokenize', 'pre': 'preprocess', 'split': 'StatementSplitter', 'group': 'grouping', 'stmt': 'stmtprocess', 'post': 'postprocess', 'yield': None}
+    def mentions(node, name):
+        for n in ast.walk(node):
+            if name is None and isinstance(n, (ast.Yield, ast.YieldFrom)):
+                return True
+            if name is not None and ((isinstance(n, ast.Name) and n.id == name) or (isinstance(n, ast.Attribute) and n.attr == name)):
+                return True
+        return False
+    covered = {k: False for k in stages}
+    outside = {k: False for k in stages}
+    handler_ok = False
+    for st in fn.body:
+        if isinstance(st, ast.Try):
+            for h in st.handlers:
+                if isinstance(h.type, ast.Name) and h.type.id == 'RecursionError' and len(h.body) == 1 and isinstance(h.body[0], ast.Raise) \
+                        and isinstance(h.body[0].exc, ast.Call) and getattr(h.body[0].exc.func, 'id', None) == 'SQLParseError':
+                    handler_ok = True
+            for k, nm in stages.items():
+                if any(mentions(s, nm) for s in st.body):
+                    covered[k] = True
+                if any(mentions(s, nm) for s in st.orelse + st.finalbody):
+                    outside[k] = True
+        else:
+            for k, nm in stages.items():
+                if mentions(st, nm):
+                    outside[k] = True
+    order = ['lex', 'pre', 'split', 'group', 'stmt', 'post', 'yield']
+    intry = [k for k in order if covered[k] and not outside[k] and handler_ok]
+    missing = [k for k in order if not covered[k] and not outside[k]]
+    if missing:
+        raise TranslateError('FilterStack.run: stages not found: %s' % missing)
+    L.append('/-- the stages of `FilterStack.run` that execute inside `try … except RecursionError: raise SQLParseError` -/')
+    L.append('def runTryStages : List Stage := [%s]' % ', '.join('.' + ('yield_' if k == 'yield' else k) for k in intry))
+    meta['runTryStages'] = intry
+    # --- entry points: parse = tuple(parsestream(...)); parsestream enables grouping; split has none; format validates first
+    def calls(fn):
+        return [n.func.attr if isinstance(n.func, ast.Attribute) else getattr(n.func, 'id', '?') for n in ast.walk(_src_tree(fn)) if isinstance(n, ast.Call)]
+    cp, cps, cs, cf = calls(sqlparse.parse), calls(sqlparse.parsestream), calls(sqlparse.split), calls(sqlparse.format)
+    facts = {
+        'parseIsTupleOfParsestream': cp.count('parsestream') == 1 and 'tuple' in cp and 'FilterStack' not in cp,
+        'parsestreamGroups': 'enable_grouping' in cps and cps.count('run') == 1,
+        'splitNoGrouping': 'enable_grouping' not in cs and cs.count('run') == 1 and 'strip' in cs,
+        'formatValidatesFirst': False,
+    }
+    # in format(): validate_options must be called before stack.run
+    ftree = _src_tree(sqlparse.format).body[0]
+    seq = []
+    for st in ftree.body:
+        for n in ast.walk(st):
+            if isinstance(n, ast.Call):
+                seq.append(n.func.attr if isinstance(n.func, ast.Attribute) else getattr(n.func, 'id', '?'))
+    if 'validate_options' in seq and 'run' in seq:
+        # statement order: the statement containing validate_options precedes the one containing run
+        idx_v = next(i for i, st in enumerate(ftree.body) if any(isinstance(n, ast.Call) and getattr(n.func, 'attr', None) == 'validate_options' for n in ast.walk(st)))
+        idx_r = next(i for i, st in enumerate(ftree.body) if any(isinstance(n, ast.Call) and getattr(n.func, 'attr', None) == 'run' for n in ast.walk(st)))
+        facts['formatValidatesFirst'] = idx_v < idx_r
+    for k, v in facts.items():
+        L.append('def %s : Bool := %s' % (k, 'true' if v else 'false'))
+    meta['entryFacts'] = facts
+    # --- get_tokens input normalisation: the fallback codec for undecodable bytes
+    src = inspect.getsource(lexer.Lexer.get_tokens)
+    m = re.search(r"except UnicodeDecodeError:\s*\n\s*text = text\.decode\('([^']+)'\)", src)
+    if not m:
+        raise TranslateError('get_tokens: fallback decode not found')
+    L.append('/-- codec used when bytes are not valid UTF-8 and no encoding is given -/')
+    L.append('def fallbackCodec : String := %s' % lean_str(m.group(1)))
+    meta['fallbackCodec'] = m.group(1)
+    L.append('end Sql.Gen')
+    L.append('')
+    return {'ControlIR.lean': '\n'.join(L)}, {'control': meta}
+
+
+_generate_tables = generate
+
+
+def generate(repo):
+    files, meta = _generate_tables(repo)
+    f2, m2 = gen_control(repo)
+    files.update(f2)
+    meta.update(m2)
+    return files, meta
